@@ -21,7 +21,14 @@ StrExtra == {Unk(TStr, [null |-> "F", prefix |-> Long(300)]), Unk(TStr, [null |-
             \cup {Unk(TStr, [null |-> "F", prefix |-> Long(253 + j) \o <<"eacute", "eacute", "eacute">>]) : j \in 0..1}
 NumUnk == {Unk(TNum, r) : r \in {[null |-> "F", lo |-> PInf, loInc |-> TRUE], [null |-> "U", lo |-> [lm |-> "i64maxp"], loInc |-> FALSE, hi |-> [lm |-> "u64max"], hiInc |-> TRUE],
                                    [null |-> "F", lo |-> [lm |-> "tenth"], loInc |-> TRUE], [null |-> "U", hi |-> [lm |-> "e30"], hiInc |-> FALSE],
-                                   [null |-> "F", lo |-> Qn(2), loInc |-> FALSE, hi |-> Qn(4), hiInc |-> FALSE]}}
+                                   [null |-> "F", lo |-> Qn(2), loInc |-> FALSE, hi |-> Qn(4), hiInc |-> FALSE],
+                                   \* bounds that are neither machine integers nor exact float64 values (a bound may only be approximated outward)
+                                   [null |-> "F", hi |-> [lm |-> "u64maxpp"], hiInc |-> TRUE], [null |-> "U", lo |-> [lm |-> "i64minm"], loInc |-> TRUE],
+                                   [null |-> "F", lo |-> [lm |-> "u64max"], loInc |-> TRUE, hi |-> [lm |-> "u64maxpp"], hiInc |-> FALSE],
+                                   [null |-> "F", lo |-> [lm |-> "f64intp"], loInc |-> TRUE, hi |-> [lm |-> "i64max"], hiInc |-> TRUE],
+                                   [null |-> "U", lo |-> [lm |-> "third"], loInc |-> TRUE, hi |-> [lm |-> "almost1"], hiInc |-> TRUE],
+                                   [null |-> "F", lo |-> [lm |-> "malmost1"], loInc |-> TRUE, hi |-> [lm |-> "tenth"], hiInc |-> TRUE],
+                                   [null |-> "F", lo |-> [lm |-> "mf64maxp"], loInc |-> TRUE, hi |-> [lm |-> "f64maxp"], hiInc |-> TRUE]}}
 Base(t) == TakeN(AllVals(t), IF Thorough THEN 30 ELSE 10) \cup UnkVals(t) \cup {Unk(t, NoRf)}
            \cup (IF t.k = "number" THEN NumExtra \cup NumUnk ELSE IF t.k = "string" THEN StrExtra ELSE {})
            \cup UNION {TakeN(Weak1(v, FALSE), IF Thorough THEN 12 ELSE 5) : v \in TakeN(Vals(t, W), IF Thorough THEN 8 ELSE 4)}
